@@ -31,6 +31,14 @@ void ezc3d::ParametersNS::GroupNS::Group::print() const
 
 void ezc3d::ParametersNS::GroupNS::Group::write(std::fstream &f, int groupIdx, std::streampos &dataStartPosition) const
 {
+    // A group without a name only holds the place of an unused group id. It has no record in the file:
+    // a name of length 0 would be read as the end of the parameter section
+    if (name().size() == 0){
+        for (size_t i=0; i < nbParameters(); ++i)
+            parameter(i).write(f, -groupIdx, dataStartPosition);
+        return;
+    }
+
     int nCharName(static_cast<int>(name().size()));
     if (isLocked())
         nCharName *= -1;
